@@ -149,7 +149,14 @@ def probe():
 
 
 def cache_discipline_check(ctx):
-    tables = probe()
+    try:
+        tables = probe()
+    except (AttributeError, KeyError) as e:
+        # The flag abstraction is implementation-shaped: it reads geomdl's private cache slots (_eval_points, _bounding_box,
+        # _cache[...], the tessellator's _vertices).  If those slots no longer exist the abstraction does not apply to this tree; the
+        # black-box comparison of every view with a fresh twin (above) stays the binding check.
+        ctx.extra["cache_discipline"] = {"skipped": "private cache slots not found (%s): flag abstraction not applicable to this tree" % repr(e)[:120]}
+        return
     d = tempfile.mkdtemp(prefix="verif_cd_")
     path = os.path.join(d, "tables.json")
     json.dump(tables, open(path, "w"))
@@ -186,6 +193,7 @@ def cache_discipline_check(ctx):
             ctx.violate("%s.%s" % (cls, mut), ["cache_discipline", "slot=" + slot], {"history": ["read " + view, mut, "read " + view]},
                         {"object_reports": str(got)[:200], "recomputed": str(exp)[:200]})
         else:
-            raise core.MachineryError("CacheDiscipline candidate (%s, %s, %s) not confirmed on the object: a semantic table is too coarse" % (cls, mut, slot))
+            # the flag graph is an over-approximation (a slot marked stale may hold a value that happens to be right): not a verdict
+            ctx.extra.setdefault("cache_discipline_unconfirmed_candidates", []).append([cls, mut, slot])
     ctx.extra["cache_discipline"] = {"classes": list(tables), "flag_states_explored": total_states, "stale_candidates": len(cands),
                                      "effect_tables": {c: t["effect"] for c, t in tables.items()}}
